@@ -411,6 +411,19 @@ class MyMapping(collections.abc.Mapping):
         return f"MyMapping({self._d!r})"
 
 
+class IterOnly:
+    """re-iterable, but neither Sized nor an Iterator (only __iter__)"""
+
+    def __init__(self, items):
+        self._items = list(items)
+
+    def __iter__(self):
+        return iter(self._items)
+
+    def __repr__(self):
+        return f"IterOnly({self._items!r})"
+
+
 class MyStr(str):
     __slots__ = ()
 
